@@ -534,6 +534,36 @@ def dense(seed, index):
     return "#pragma version 8\n" + "\n".join(body) + "\n"
 
 
+TWOFIELD_KINDS = [None, ("TypeEnum", "pay"), ("TypeEnum", "axfer"), ("TypeEnum", "appl"), ("TypeEnum", "keyreg"),
+                  ("OnCompletion", "UpdateApplication"), ("OnCompletion", "DeleteApplication"), ("OnCompletion", "NoOp")]
+TWOFIELD_ADDR = [None, ("CloseRemainderTo", "global ZeroAddress", "=="), ("AssetCloseTo", "global ZeroAddress", "=="),
+                 ("RekeyTo", "global ZeroAddress", "=="), ("Sender", "global CreatorAddress", "=="),
+                 ("CloseRemainderTo", "global ZeroAddress", "!="), ("Sender", "global CreatorAddress", "!="),
+                 ("CloseRemainderTo", "addr 6ZHGHH5Z5CTPCF5WCESXMGRSVK7QJETR63M3NY5FJCUYDHO57VTCMJOBGY", "==")]
+N_TWOFIELD = len(TWOFIELD_KINDS) * len(TWOFIELD_ADDR) * 2
+
+def twofield(seed, index):
+    """systematic family for the detector predicates that combine a transaction-kind check with an address check
+    (can-close-account / can-close-asset / unprotected-updatable / unprotected-deletable, and the single-field ones):
+    kind check x address check x {asserted, negated and branched}"""
+    kind = TWOFIELD_KINDS[index % len(TWOFIELD_KINDS)]
+    addr = TWOFIELD_ADDR[(index // len(TWOFIELD_KINDS)) % len(TWOFIELD_ADDR)]
+    negated = (index // (len(TWOFIELD_KINDS) * len(TWOFIELD_ADDR))) % 2 == 1
+    out = ["#pragma version 8"]
+    if kind is not None:
+        f, c = kind
+        if f == "OnCompletion":
+            out += ["txn TypeEnum", "int appl", "==", "assert"]
+        if negated: out += [f"txn {f}", f"int {c}", "!=", "bnz bad"]
+        else: out += [f"txn {f}", f"int {c}", "==", "assert"]
+    if addr is not None:
+        f, v, op = addr
+        out += [f"txn {f}", v, op, "assert"]
+    out += ["int 1", "return"]
+    if kind is not None and negated: out += ["bad:", "err"]
+    return "\n".join(out) + "\n", []
+
+
 if __name__ == "__main__":
     import sys
     s, t = fragment(int(sys.argv[1]) if len(sys.argv) > 1 else 0, int(sys.argv[2]) if len(sys.argv) > 2 else 0)
